@@ -43,7 +43,7 @@ def run_contract(args):
     modules = {}
     witnesses = []
     partial = []
-    meta = {'assumptions': set(), 'dropped': set(), 'n_paths': 0, 'paths_without_call': 0}
+    meta = {'assumptions': set(), 'dropped': set(), 'interpreted': set(), 'n_paths': 0, 'paths_without_call': 0}
     err = None
     counter = {'n': 0}
 
@@ -65,6 +65,7 @@ def run_contract(args):
         finally:
             meta['assumptions'].update(ctx.I.assumptions)
             meta['dropped'].update(ctx.I.dropped)
+            meta['interpreted'].update(ctx.I.interpreted)
         if not ctx.called:
             meta['paths_without_call'] += 1
         meta['n_paths'] += 1
@@ -91,7 +92,7 @@ def run_contract(args):
         err = {'kind': 'engine', 'text': 'crash %s: %s\n%s' % (type(e).__name__, e, traceback.format_exc()[-3000:])}
     return {'contract': cname, 'funcs': c.funcs, 'clause': c.clause, 'records': [r.as_dict() for r in sink.records],
             'covers': sink.covers, 'witnesses': witnesses, 'partial_witnesses': partial, 'stats': stats, 'error': err,
-            'assumptions': sorted(meta['assumptions']), 'dropped': sorted(meta['dropped']), 'n_paths': meta['n_paths'],
+            'assumptions': sorted(meta['assumptions']), 'dropped': sorted(meta['dropped']), 'interpreted': sorted(meta['interpreted']), 'n_paths': meta['n_paths'],
             'paths_no_witness': meta.get('paths_no_witness', 0), 'wall_s': time.time() - t0,
             'float_mode': c.opts.get('float_mode', 'FP'), 'bounded': c.opts.get('bounded')}
 
@@ -145,9 +146,15 @@ def check_property(prop, tier='quick', seed=0, only=None, verbose=False):
     if not contracts:
         print('ENGINE-ERROR property=%s no contracts' % prop)
         return 3
+    # contracts marked bounded_only=True are never given to the verifier: the function is outside its reach (external numerical
+    # solver ...); they are a bounded native check with a stated bound, reported under `bounded_checks`, never counted as proved
+    bounded_only = [c for c in contracts if c.opts.get('bounded_only')]
+    contracts = [c for c in contracts if not c.opts.get('bounded_only')]
     jobs = [(prop, c.name, cfg) for c in contracts]
     nproc = min(int(os.environ.get('VERIF_JOBS', '16')), len(jobs))
-    if nproc > 1:
+    if not jobs:
+        results = []
+    elif nproc > 1:
         with mp.get_context('fork').Pool(nproc) as pool:
             results = pool.map(run_contract, jobs, chunksize=1)
     else:
@@ -188,6 +195,20 @@ def check_property(prop, tier='quick', seed=0, only=None, verbose=False):
                 standin.setdefault(it['contract'], []).append(run)
         except Exception as e:
             native_err = 'stand-in: ' + str(e)
+
+    bo_runs = {}
+    if bounded_only and not native_err:
+        def _bo(c):
+            n = (c.opts.get('samples') or {}).get(tier) or n_samples
+            its = [{'contract': c.name, 'values': {}, 'tag': 'sample:%d' % i, 'sample_seed': seed * 100003 + i} for i in range(n)]
+            return c.name, native_run(prop, its, timeout=3000, stop_on_fail=True, call_timeout_s=20)
+        try:
+            from concurrent.futures import ThreadPoolExecutor
+            with ThreadPoolExecutor(max_workers=min(8, len(bounded_only))) as ex:
+                for cname, runs in ex.map(_bo, bounded_only):
+                    bo_runs[cname] = runs
+        except Exception as e:
+            native_err = 'bounded-only: ' + str(e)
 
     known = load_known()
     exit_code = 0
@@ -325,6 +346,40 @@ def check_property(prop, tier='quick', seed=0, only=None, verbose=False):
             violations += 1
             print('  bounded stand-in found a failing input for %s: %s (raised=%s result=%s)' % (obid, json.dumps(x.get('values'))[:400], x.get('raised'), x.get('result')))
 
+    bounded_checks = []
+    for c in bounded_only:
+        runs = bo_runs.get(c.name, [])
+        ran = [x for x in runs if not (x.get('error') or '').startswith('precondition-not-met')]
+        crashed = [x for x in ran if x.get('error')]
+        n_ens = sum(len(x['ensures']) for x in ran)
+        bounded_checks.append({'contract': c.name, 'clause': c.clause, 'functions': c.funcs, 'bound': c.opts.get('bounded'),
+                               'samples_generated': len(runs), 'samples_meeting_precondition': len(ran),
+                               'postconditions_evaluated': n_ens, 'counted_as_proved': False})
+        if crashed:
+            engine_errors.append('%s (bounded only): %s' % (c.name, crashed[0]['error'][:600]))
+            continue
+        if not ran or not n_ens:
+            engine_errors.append('%s (bounded only): no sample met the pre-condition / no post-condition evaluated' % c.name)
+            continue
+        for x in ran:
+            fails = [e for e in x['ensures'] if e[2] is False]
+            if not fails:
+                continue
+            e = fails[0]
+            obid = '%s/%s' % (c.name, e[0])
+            kf = match_known(known, prop, c.name, e[0], x.get('values', {}))
+            if kf:
+                known_hits.append((kf, obid))
+                continue
+            replay_path = os.path.join(VERIF_ROOT, 'replays', prop, '%s.%s.sample.json' % (c.name, e[0].replace('/', '_')))
+            json.dump({'property': prop, 'contract': c.name, 'obligation': e[0], 'class': e[1], 'values': x.get('values'), 'native': x,
+                       'found_by': 'bounded native check (function outside the verifier\'s reach; not a proof obligation)',
+                       'replay_cmd': './vcheck %s --replay %s' % (prop, replay_path)}, open(replay_path, 'w'), indent=1, default=str)
+            lines.append('VIOLATION property=%s replay=%s' % (prop, replay_path))
+            violations += 1
+            print('  bounded check found a failing input for %s: %s %s' % (obid, json.dumps(x.get('values'))[:400], e[3]))
+            break
+
     seen_kf = set()
     for kf, obid in known_hits:
         if id(kf) in seen_kf:
@@ -368,13 +423,16 @@ def check_property(prop, tier='quick', seed=0, only=None, verbose=False):
         'samples': samples or [{'obligation': r['contract'] + '/' + (r['records'][0]['name'] if r['records'] else '-'),
                                 'backend': 'syntactic'} for r in results[:3]],
         'functions_under_contract': funcs,
+        'functions_interpreted': sorted(set(f for r in results for f in r.get('interpreted', []) if f.startswith(('cflib', 'examples')))),
         'contracts': [{'name': r['contract'], 'clause': r['clause'], 'paths': r['n_paths'],
                        'obligations': len(r['records']), 'wall_s': round(r['wall_s'], 2), 'float_mode': r['float_mode']} for r in results],
         'by_backend': by_backend, 'solver_time_s': round(solver_time, 3),
         'paths_explored': sum(r['n_paths'] for r in results),
         'extraction_drops': EXTRACTION_DROPS, 'dropped_calls_seen': sorted(set(d for r in results for d in r['dropped'])),
         'concordance_samples': conc, 'traces_validated_against_impl': conc,
-        'bounded': bounded, 'known_findings_matched': [k['what'] for k, _ in known_hits],
+        'bounded': bounded + [{'contract': b['contract'], 'bound': 'BOUNDED ONLY (not verified): %s; %d sampled inputs' % (b['bound'], b['samples_meeting_precondition'])}
+                              for b in bounded_checks],
+        'bounded_checks': bounded_checks, 'known_findings_matched': [k['what'] for k, _ in known_hits],
         'undecided': undecided, 'engine_errors': engine_errors,
         'explanation': 'contract-based deductive verification: symbolic execution of the real AST per function, one '
                        'obligation per (path, post-condition); every proved path is also executed natively on a solver '
